@@ -2,11 +2,25 @@
 use crate::engine::{Check, Run};
 use serde_json::Value;
 
+pub mod c02;
+pub mod c03;
+pub mod c10;
+pub mod c11;
 pub mod c12;
+pub mod c13;
+pub mod c14;
+pub mod c18;
 
 pub fn run(id: &str, run: &Run) {
     match id {
+        "C02" => c02::run(run),
+        "C03" => c03::run(run),
+        "C10" => c10::run(run),
+        "C11" => c11::run(run),
         "C12" => c12::run(run),
+        "C18" => c18::run(run),
+        "C14" => c14::run(run),
+        "C13" => c13::run(run),
         _ => {
             eprintln!("INFRA: unknown property {id}");
             std::process::exit(2)
@@ -16,7 +30,14 @@ pub fn run(id: &str, run: &Run) {
 
 pub fn replay(id: &str, run: &Run, case: &Value) -> Check {
     match id {
+        "C02" => c02::replay(run, case),
+        "C03" => c03::replay(run, case),
+        "C10" => c10::replay(run, case),
+        "C11" => c11::replay(run, case),
         "C12" => c12::replay(run, case),
+        "C18" => c18::replay(run, case),
+        "C14" => c14::replay(run, case),
+        "C13" => c13::replay(run, case),
         _ => {
             eprintln!("INFRA: unknown property {id}");
             std::process::exit(2)
